@@ -46,8 +46,29 @@ def load_known():
 def run_child(st, args, result_path, extra_env=None, timeout=None):
     env = st.env(extra_env)
     cmd = [PY, "-m", "vf.child"] + args + ["--out", result_path]
-    p = subprocess.run(cmd, env=env, cwd=HERE, timeout=timeout)
-    return p.returncode
+    # a check that stops making progress must fail (exit 2, machinery), not sit there: an overall allowance far above any
+    # measured run time (quick: minutes, thorough: up to ~75 min on a loaded machine)
+    if timeout is None:
+        timeout = 4 * 3600 if "thorough" in args else 3600
+    p = subprocess.Popen(cmd, env=env, cwd=HERE, start_new_session=True)
+    try:
+        return p.wait(timeout=timeout)
+    except subprocess.TimeoutExpired:
+        import signal
+        print("check child exceeded its overall allowance of %d s: stopped (machinery failure)" % timeout, file=sys.stderr)
+        try:
+            os.killpg(p.pid, signal.SIGKILL)
+        except OSError:
+            pass
+        p.wait()
+        return 124
+    except BaseException:
+        import signal
+        try:
+            os.killpg(p.pid, signal.SIGKILL)
+        except OSError:
+            pass
+        raise
 
 
 def validate_evidence(path):
